@@ -6,7 +6,7 @@ From Mathy Require Import Num.
 Import ListNotations.
 
 Inductive bk := KEq | KAdd | KSub | KMul | KDiv | KPow.
-Inductive uk := UNeg | UFact | USgn.
+Inductive uk := UNeg | UFact | USgn | UAbs.
 Inductive expr := Const (n:num) | Var (v:N) | Un (u:uk) (c:expr) | Bin (k:bk) (l r:expr).
 
 Definition bk_eqb (a b:bk) : bool := match a,b with KEq,KEq|KAdd,KAdd|KSub,KSub|KMul,KMul|KDiv,KDiv|KPow,KPow => true | _,_ => false end.
